@@ -149,3 +149,35 @@ Proof.
   - destruct (Ha r) as [st E]. rewrite E in Hp. inversion Hp; subst. eapply required_of_shape, shape_bad_request.
   - inversion Hp; subst. eapply required_of_shape, shape_bad_request.
 Qed.
+
+(* spec side: the literal header lines the property names (frozen; independent of /repo) *)
+Definition lit_nosniff : list N * list N :=
+  ([88;45;67;111;110;116;101;110;116;45;84;121;112;101;45;79;112;116;105;111;110;115], [110;111;115;110;105;102;102]).
+Definition lit_sameorigin : list N * list N :=
+  ([88;45;70;114;97;109;101;45;79;112;116;105;111;110;115], [83;65;77;69;79;82;73;71;73;78]).
+Definition lit_accept_ranges : list N * list N := ([65;99;99;101;112;116;45;82;97;110;103;101;115], [98;121;116;101;115]).
+Definition lit_cache_control_name : list N := [67;97;99;104;101;45;67;111;110;116;114;111;108].
+Definition lit_no_store : list N := [110;111;45;115;116;111;114;101].
+Definition lit_vary_name : list N := [86;97;114;121].
+Definition lit_origin : list N := [79;114;105;103;105;110].
+Definition lit_accept_ch_name : list N := [65;99;99;101;112;116;45;67;72].
+
+(* the generated constants are the documented ones *)
+Lemma table_is_documented :
+  nth_error required 0 = Some lit_nosniff /\ nth_error required 1 = Some lit_sameorigin /\
+  nth_error required 3 = Some lit_accept_ranges /\
+  (exists v, nth_error required 2 = Some (lit_cache_control_name, v) /\ contains v lit_no_store = true) /\
+  (exists v, nth_error required 4 = Some (lit_accept_ch_name, v) /\ v <> []) /\
+  (exists v, nth_error required 5 = Some (lit_vary_name, v) /\ starts_with v lit_origin = true).
+Proof. repeat split; try reflexivity; eexists; (split; [reflexivity|]); vm_compute; congruence. Qed.
+
+
+Lemma wire_shape rs meth : exists body,
+  generate_response rs meth = HTTP11 ++ [32] ++ show_N (rs_status rs) ++ [32] ++ rs_reason rs ++ CRLF ++
+                              flat_map gen_header (all_headers rs) ++ CRLF ++ body.
+Proof. eexists. reflexivity. Qed.
+
+(* the header list of every response starts with the CORS headers computed for its request *)
+Lemma cors_prefix lg cfg fs r rs : app_execute_gen lg cfg fs r = SOk rs ->
+  exists rest, rs_headers rs = cors_headers (cf_cors cfg) r ++ rest.
+Proof. intro E. destruct (shape_execute _ _ _ _ _ E) as [ex [Eh _]]. rewrite Eh, default_split, <- app_assoc. eexists. reflexivity. Qed.
